@@ -20,7 +20,8 @@ database taken before each operation and re-checked after it.
 import itertools
 from ..shard import rng_for
 from ..rec import Recorder
-from pylatexenc.macrospec import LatexContextDb, MacroSpec, EnvironmentSpec, SpecialsSpec
+from pylatexenc.macrospec import LatexContextDb, MacroSpec, EnvironmentSpec, SpecialsSpec, ParsingStateDeltaExtendLatexContextDb
+from pylatexenc.latexnodes import ParsingState
 
 PROPERTY = 'C14'
 LEVEL = 'exploration'
@@ -62,6 +63,9 @@ def op_alphabet():
     ops.append(['filter', {'exclude_categories': ['A'], 'keep_which': ['macros', 'specials']}])
     ops.append(['extend', 'X', 2])
     ops.append(['extend', None, 1])
+    # extension through a parsing-state delta object; the same delta object (per number) is applied wherever the op recurs
+    ops.append(['extend', None, 1, 'delta', 0])
+    ops.append(['extend', None, 2, 'delta', 1])
     return ops
 
 
@@ -81,7 +85,8 @@ def plan(tier, seed):
 def floors(tier):
     return {'evaluations': 20000, 'distinct_nontrivial': 5000, 'lookups_checked': 500000,
             'parent_snapshots_rechecked': 20000, 'frozen_refusals': 1000, 'derived_from_derived': 500,
-            'histkeys:placement': 7, 'filtered_contents_compared': 5000}
+            'histkeys:placement': 7, 'filtered_contents_compared': 5000,
+            'extensions_through_delta_objects': 3000, 'delta_objects_reapplied': 3000}
 
 
 def setup(rec):
@@ -201,6 +206,7 @@ def run_history(ops, rec, targets):
     """Execute a history.  Returns error string or None."""
     hs = [H(LatexContextDb(), [], {'m': None, 'e': None, 's': None})]
     tag = 0
+    deltas = {}
     used_placement = False
     derived = False
     for step, (op, ti) in enumerate(zip(ops, targets)):
@@ -306,11 +312,23 @@ def run_history(ops, rec, targets):
             derived = True
         elif kind == 'extend':
             cat, ci = op[1], op[2]
-            with_unk = len(op) > 3
+            with_unk = len(op) == 4
+            via_delta = len(op) > 4
             ms, es, ss = CONTENTS[ci]
+            if via_delta:
+                if op[4] not in deltas:
+                    deltas[op[4]] = ParsingStateDeltaExtendLatexContextDb(extend_latex_context=dict(
+                        macros=[mk('m', n, tag) for n in ms], environments=[mk('e', n, tag) for n in es],
+                        specials=[mk('s', n, tag) for n in ss]))
+                else:
+                    rec.monitor('delta_objects_reapplied')
+                the_delta = deltas[op[4]]
             if not db.frozen:
                 try:
-                    db.extended_with(cat, macros=[mk('m', n, tag) for n in ms])
+                    if via_delta:
+                        the_delta.get_updated_parsing_state(ParsingState(s='', latex_context=db), None)
+                    else:
+                        db.extended_with(cat, macros=[mk('m', n, tag) for n in ms])
                     return 'step %d: extended_with accepted on an unfrozen database' % step
                 except RuntimeError:
                     pass
@@ -326,9 +344,15 @@ def run_history(ops, rec, targets):
                     newunk = {'m': mk('m', '', tag), 'e': mk('e', '', tag), 's': h.unknown['s']}
                     xkw = {'unknown_macro_spec': newunk['m'], 'unknown_environment_spec': newunk['e']}
                 try:
-                    ndb = db.extended_with(cat, macros=[mk('m', n, tag) for n in ms],
-                                           environments=[mk('e', n, tag) for n in es],
-                                           specials=[mk('s', n, tag) for n in ss], **xkw)
+                    if via_delta:
+                        rec.monitor('extensions_through_delta_objects')
+                        ndb = the_delta.get_updated_parsing_state(ParsingState(s='', latex_context=db), None).latex_context
+                        if ndb is db:
+                            return 'step %d: the context-extending delta returned the database it was applied to' % step
+                    else:
+                        ndb = db.extended_with(cat, macros=[mk('m', n, tag) for n in ms],
+                                               environments=[mk('e', n, tag) for n in es],
+                                               specials=[mk('s', n, tag) for n in ss], **xkw)
                 except ValueError:
                     if cat is None or cat not in before:
                         return 'step %d: extended_with(%r) raised ValueError (categories %r)' % (step, cat, before)
@@ -456,6 +480,14 @@ def run_shard(desc, rec):
                         e.append('unk')
                     ops.append(e)
             targets = [rng.randrange(100) for _ in range(L)]
+            if i % 8 == 0:
+                # one delta object applied to several different frozen databases: build, freeze, derive, then the same
+                # extension wherever the random targets point (original, filtered copy, earlier extension)
+                d = ['extend', None, rng.randrange(len(CONTENTS)), 'delta', rng.randrange(2)]
+                ops = [['add', 'A', None, rng.randrange(len(CONTENTS))], ['add', rng.choice(['B', None]), None, rng.randrange(len(CONTENTS))],
+                       ['freeze']] + ops[:3] + [list(d), ['filter', {'exclude_categories': ['A']}], list(d), list(d)] + \
+                      [rng.choice(ops) for _ in range(2)] + [list(d)]
+                targets = [0, 0, 0] + [rng.randrange(100) for _ in range(len(ops) - 3)]
             rec.case()
             case = {'ops': ops, 'targets': targets}
             if i % 400 == 0:
@@ -463,7 +495,7 @@ def run_shard(desc, rec):
             check_case(case, rec)
 
 
-LEVEL_TEXT = ('Exploration of build histories with a public-API oracle: all short histories over a 46-operation alphabet '
+LEVEL_TEXT = ('Exploration of build histories with a public-API oracle: all short histories over a 54-operation alphabet '
               'and tens of thousands of random histories are executed on the real LatexContextDb; after every step '
               'every reachable database is queried for every name/probe and compared with (i) the first definition in '
               'categories() order found through iter_*_specs(categories=[c]), (ii) a model of the documented placement '
